@@ -7,7 +7,7 @@ S2 end alignment: the encoder takes the first character from the directed bond w
    earlier (target) atom and the second to the reverse bond
 S3 marks are only printed for order 1 (both directions of a ring bond have the same order)
 S4 the encoder's inversion decision is the parity of the number of inversions of the out-bond permutation, for every
-   ordering of up to four neighbours (abstract interpretation of the counting code on symbolic lists, rules/chiral.py)
+   ordering of up to five neighbours (abstract interpretation of the counting code on symbolic lists, rules/chiral.py)
 S5 has_out_ring_bond means "the atom carries a ring bond": flag set for both ends where ring bonds are inserted and
    nowhere else, or any() over all out-bonds
 S6 the parser gives each end of a ring-closure bond the mark written on its own ring digit
@@ -36,7 +36,7 @@ META = {
     "level_text": "Static labelled-dataflow check of mark transport on ring bonds through parser, encoder and decoder; "
                   "inversion-parity and ring-flag clauses of the tetrahedral rule; all inputs.",
     "level_note": "Clause-level. Decides mark transport on ring-closure bonds (S1-S3, S6) and two necessary conditions of the "
-                  "@/@@ rule: the parity test is an inversion parity for all orderings of up to 4 neighbours (S4) and the "
+                  "@/@@ rule: the parity test is an inversion parity for all orderings of up to 5 neighbours (S4) and the "
                   "ring-bond flag means what it says (S5). That the permutation itself matches the decoder's placement is "
                   "not decided.",
     "technique": "symbolic path summaries (abstract interpretation on symbolic lists) + labelled dataflow (left/right roles) + constant folding of the ring table",
